@@ -19,7 +19,7 @@ from hsim.worlds.udp import UdpWorld
 PROPERTY = "C06"
 BYTE_EXACT = False
 CHUNK = {"quick": 24, "thorough": 60}
-PROBES = ["packet_id_counter_leapt", "reconnected_session_forwarded", "corrupt_forwarded", "corrupt_discarded", "proxy_originated_in_window", "garbage_between_valid_same_flow", "two_sessions_same_sim", "same_ip", "reopen_after_close",
+PROBES = ["region_handle_announced_again_on_another_address", "packet_id_counter_leapt", "reconnected_session_forwarded", "corrupt_forwarded", "corrupt_discarded", "proxy_originated_in_window", "garbage_between_valid_same_flow", "two_sessions_same_sim", "same_ip", "reopen_after_close",
           "spontaneous_emission", "packetack_swallowed", "unjudged_after_close", "late_region_registered",
           "disconnect_midstream", "eager_parsing"]
 COMPONENTS = {
@@ -125,7 +125,11 @@ def gen_plan(rng: random.Random, tier: str) -> dict:
         elif x < cfg["p_garbage"] + 0.13:
             newr = rng.randrange(3, 5)
             steps.append({"at": t, "op": "register_region", "v": v, "r": newr})
-            if rng.random() < 0.5:
+            if rng.random() < 0.3 and regs:
+                steps[-1]["same_handle_as"] = rng.choice([x for x in regs if x < 3] or [0])
+                t = round(t + 0.01, 4)
+                steps.append({"at": t, "op": "ucc", "v": v, "r": newr})
+            elif rng.random() < 0.5:
                 # announced the way EstablishAgentCommunication does: address and seed, no region handle yet; the
                 # viewer connects and the simulator's handshake arrives before anything fills the handle in
                 steps[-1]["no_handle"] = True
